@@ -49,6 +49,12 @@ var c07Kinds = []c07Kind{
 	{Name: "c3v-2", Count: 3, HasValue: true, Value: -2},
 	{Name: "c3", Count: 3},
 	{Name: "c1v5", Count: 1, HasValue: true, Value: 5},
+	// fractional weights (sampled / fractional counters). 2.25 and 2.75 differ by less than 1, 0.5 moves a value by
+	// less than 1 (2.25+0.5 = 2.75 ties, 2.75+0.5 = 3.25, 1+2.25 = 3.25, ...), so distinct top values end up with
+	// weights closer than 1.0 on both sides of every cut n. All are dyadic, so sums stay exact in float64.
+	{Name: "c0.5v5", Count: 0.5, HasValue: true, Value: 5},
+	{Name: "c2.25", Count: 2.25},
+	{Name: "c2.75", Count: 2.75},
 }
 
 // Key forms: first use / later uses. A mapped value (I != 0) has priority over its string, so {7,""} and {7,"x"}
@@ -196,8 +202,15 @@ func (h *c07Hook) Uint64n(n uint64) uint64 {
 			}
 			for _, k := range eligible {
 				evict := true
-				// a value with count <= 0 is evicted by every draw (count > draw is false): no choice to make
-				if log2 <= h.maxFreeLog2 && h.item.Top[k].Value.Count() > 0 {
+				cnt := h.item.Top[k].Value.Count()
+				// draws are 0..n-1 and a value is kept iff count > draw: a value with count <= 0 is evicted by every
+				// draw, one with n-1 < count < n is kept by every draw (fractional counts): no choice to make
+				switch {
+				case cnt > float64(n-1):
+					evict = false
+				case cnt <= 0:
+					evict = true
+				case log2 <= h.maxFreeLog2:
 					if h.attempt == 0 {
 						h.evictionDraws++
 					}
@@ -224,7 +237,7 @@ func (h *c07Hook) Uint64n(n uint64) uint64 {
 	k := h.order[h.drawIdx]
 	h.drawIdx++
 	if h.plan[k] {
-		return n - 1 // count < sf = n, so count > n-1 is false for the integer counts used: evicted
+		return n - 1 // planned only for count <= n-1, so count > n-1 is false: evicted
 	}
 	return 0 // count > 0: kept
 }
@@ -304,6 +317,55 @@ func c07Compare(where string, got, want c07Totals) (string, string) {
 		return "C07:max-not-conserved", fmt.Sprintf("%s: max over retained values + tail %v, over events written %v", where, got.Max, want.Max)
 	}
 	return "", ""
+}
+
+// c07FinishOrderDependent runs the real FinishStringTop(n) on copies of the row whose Top map was filled in every
+// insertion order (Go iterates a small map in insertion order rotated by a random offset, offset 0 being the most
+// likely), c07OrderTrials times each, and reports whether any run retains a value strictly lighter (exact float64
+// comparison) than one it folds. FinishStringTop collects the values by ranging over the map, so an ordering that
+// treats close weights as equal shows only for some iteration orders; correct code passes for all of them.
+const c07OrderTrials = 6
+
+func c07FinishOrderDependent(item *MultiItem, n int, rng *rand.Rand) bool {
+	keys := make([]TagUnion, 0, len(item.Top))
+	for k := range item.Top {
+		keys = append(keys, k)
+	}
+	c07SortKeys(keys)
+	for p := 0; p < c07Fact(len(keys)); p++ {
+		order := c07Perm(keys, p)
+		for trial := 0; trial < c07OrderTrials; trial++ {
+			fin := &MultiItem{Tail: item.Tail, sampleFactorLog2: item.sampleFactorLog2, SF: item.SF}
+			fin.Top = map[TagUnion]*MultiValue{}
+			for _, k := range order {
+				vv := *item.Top[k]
+				fin.Top[k] = &vv
+			}
+			fin.FinishStringTop(rng, n)
+			minRetained, maxFolded := math.Inf(1), math.Inf(-1)
+			for _, k := range keys {
+				c := item.Top[k].Value.Count()
+				if _, ok := fin.Top[k]; ok {
+					minRetained = math.Min(minRetained, c)
+				} else {
+					maxFolded = math.Max(maxFolded, c)
+				}
+			}
+			if minRetained < maxFolded {
+				return true
+			}
+		}
+	}
+	return false
+}
+
+func c07SortedWeights(m map[TagUnion]float64) []float64 {
+	out := make([]float64, 0, len(m))
+	for _, c := range m {
+		out = append(out, c)
+	}
+	sort.Float64s(out)
+	return out
 }
 
 // ---------- one execution ----------
@@ -465,8 +527,10 @@ func c07Body(x *mc.Exec, maxLen int, kinds []int, caps []int, maxFreeLog2 int, s
 				maxFolded = math.Max(maxFolded, c)
 			}
 		}
-		if minRetained < maxFolded {
-			return fail("C07:finish-keeps-lighter-than-folded", fmt.Sprintf("FinishStringTop(%d) retains a value of count %v but folds one of count %v into the tail", n, minRetained, maxFolded))
+		if minRetained < maxFolded || (n > 0 && n < len(before) && c07FinishOrderDependent(item, n, rng)) {
+			// The message names only n and the weights: which value is wrongly retained can depend on the map
+			// iteration order inside FinishStringTop, the message must not (replays have to be identical).
+			return fail("C07:finish-keeps-lighter-than-folded", fmt.Sprintf("FinishStringTop(%d) over top values of weights %v retains a value that is lighter than one it folds into the tail", n, c07SortedWeights(before)))
 		}
 		for k := range fin.Top {
 			if _, ok := before[k]; !ok {
@@ -499,13 +563,13 @@ func c07Body(x *mc.Exec, maxLen int, kinds []int, caps []int, maxFreeLog2 int, s
 
 func TestVerifC07(t *testing.T) {
 	rep := mc.NewReport("C07")
-	rep.Rule = "every history of 1..L events; an event = top value (none | a value already used | the next new one of 4; new values appear in canonical order, the code treats values symmetrically; mapped values are referenced both as {id} and {id,string}) x kind (count 1 | count 3 with value -2 | count 3 | count 1 with value 5); x capacity x MapStringTop/MapStringTopBytes; every admit/reject outcome of every admission draw and every keep/evict combination of every resample pass (per retained value) up to sample factor 2^K, pinned to evict beyond; then FinishStringTop(n) for n in {-1,0,1,2,3} on the final row. Executions = histories x draw outcomes, all distinct. Non-trivial = execution in which capacity pressure caused at least one resample pass or admission draw"
+	rep.Rule = "every history of 1..L events; an event = top value (none | a value already used | the next new one of 4; new values appear in canonical order, the code treats values symmetrically; mapped values are referenced both as {id} and {id,string}) x kind (count 1 | count 3 with value -2 | count 3 | count 1 with value 5 | fractional: count 0.5 with value 5 | count 2.25 | count 2.75, so that distinct top values get weights closer than 1.0 on both sides of every cut); x capacity x MapStringTop/MapStringTopBytes; every admit/reject outcome of every admission draw and every keep/evict combination of every resample pass (per retained value) up to sample factor 2^K, pinned to evict beyond; then FinishStringTop(n) for n in {-1,0,1,2,3} on the final row, for every cut that splits the top values additionally on copies filled in every insertion order x 6 runs (map iteration order inside FinishStringTop), weights compared exactly as float64. Executions = histories x draw outcomes, all distinct. Non-trivial = execution in which capacity pressure caused at least one resample pass or admission draw"
 	st := &c07Stats{states: map[uint64]struct{}{}, outcomes: map[uint64]struct{}{}, bySig: map[string]int64{}, admitted: map[string]map[string]bool{}}
 	shard, shards := mc.ShardFromEnv()
 	maxFree := mc.Pick(3, 4)
 	rep.Bounds["free_draws_up_to_sample_factor_log2"] = maxFree
 	rep.Bounds["capacities"] = []int{1, 2, 3}
-	rep.Assume("counts are integers (1, 3 and their sums), so the draw representatives 0 / sf-1 fall into the keep / evict class of every eligible value")
+	rep.Assume("counts are dyadic rationals (1, 3, 0.5, 2.25, 2.75 and their sums): float64 sums are exact; the draw representatives 0 / sf-1 fall into the keep / evict class of every eligible value, values with sf-1 < count < sf can only be kept and are not given a choice")
 	run := func(part string, maxLen int, kinds []int, caps []int, workers int) {
 		body := func(x *mc.Exec) mc.Verdict { return c07Body(x, maxLen, kinds, caps, maxFree, st) }
 		stats := mc.Explore(body, mc.Options{Bound: -1, SplitDepth: 4, Shard: shard, Shards: shards, Workers: workers})
@@ -513,19 +577,28 @@ func TestVerifC07(t *testing.T) {
 		rep.Bounds[part+"_max_events"] = maxLen
 	}
 	all, two := []int{0, 1, 2, 3}, []int{0, 1}
+	frac := []int{4, 5, 6, 0} // 0.5 (with value), 2.25, 2.75 and 1: weights closer than 1.0 around every cut
+	frac3 := []int{4, 5, 6}
+	every := []int{0, 1, 2, 3, 4, 5, 6}
 	if shard == 0 {
 		// shortest histories first in one worker: stable examples for every signature
 		run("shortest_len3_4kinds_serial", 3, all, []int{1, 2}, 1)
+		run("shortest_len2_fractional_serial", 2, frac, []int{1, 2, 3}, 1)
 	}
 	if mc.Thorough() {
 		run("len4_4kinds", 4, all, []int{1, 2, 3}, 0)
 		run("len5_3kinds", 5, []int{0, 1, 2}, []int{1, 2, 3}, 0)
 		run("len6_2kinds", 6, two, []int{1, 2, 3}, 0)
+		run("len4_7kinds_incl_fractional", 4, every, []int{1, 2, 3}, 0)
+		run("len5_3kinds_fractional", 5, frac3, []int{1, 2, 3}, 0)
 		run("len4_4kinds_default_capacity", 4, all, []int{0}, 0)
+		run("len4_4kinds_fractional_default_capacity", 4, frac, []int{0}, 0)
 	} else {
 		run("len4_4kinds", 4, all, []int{1, 2, 3}, 0)
 		run("len5_2kinds", 5, two, []int{1, 2, 3}, 0)
+		run("len4_4kinds_fractional", 4, frac, []int{1, 2, 3}, 0)
 		run("len3_4kinds_default_capacity", 3, all, []int{0}, 0)
+		run("len3_4kinds_fractional_default_capacity", 3, frac, []int{0}, 0)
 	}
 	for h := range st.states {
 		rep.State(fmt.Sprintf("%x", h))
